@@ -583,6 +583,11 @@ pub fn expectation(case: &Case, o: &Observed) -> Expect {
     if case.tty != 0 {
         return Expect::NotJudged("stdin is a terminal".into());
     }
+    // Under an address-space limit a failing allocation aborts the process (Rust's allocation-error handler): running
+    // out of a deliberately small memory budget says nothing about the property.
+    if case.rlimit_as_mb > 0 && (o.signal == Some(6) || String::from_utf8_lossy(&o.stderr_accepted).contains("memory allocation of")) {
+        return Expect::NotJudged("allocation failed under the address-space limit".into());
+    }
     // a regular-file stdin may have been partly consumed by whoever started the program: its input is the rest
     let off = if case.stdin_kind == 1 { case.stdin_offset.min(case.stdin.len()) } else { 0 };
     let stdin_eff: Vec<u8> = if o.eof_injected_r0 || o.hard_err.iter().any(|(c, e)| c == "r0" && *e == EBADF) {
